@@ -79,6 +79,9 @@ func checkC06(c *Check) {
 	if !c.Anchor("sshd dispatcher", d != nil) {
 		return
 	}
+	for _, pr := range d.Problems {
+		c.Unk("dispatch-table", pr, "-", "dispatch row not understood")
+	}
 	rxm := p.RegexVars(pkgSshd)
 	rx := RegexByName(rxm)
 	c.Floor("package-level patterns", 20, len(rxm))
@@ -112,6 +115,10 @@ func checkC06(c *Check) {
 				}
 			}
 		})
+		if len(row.Pos) == 0 {
+			c.Bad("dispatch-extraction-agreement", name, p.InstrPos(row.Site), "the row is selected without a recognised predicate on the line (a matcher that is neither a literal prefix test nor a package-level pattern)")
+			continue
+		}
 		last := row.Pos[len(row.Pos)-1]
 		switch {
 		case first == nil && last.Kind == "prefix":
@@ -463,6 +470,41 @@ func lineReachesDispatcher(c *Check) int {
 		return 0
 	}
 	n := 0
+	// the dispatcher itself calls the selected entry function once: a second
+	// call of the selected function on the same path (a "measure it" or
+	// "log its error" call under a debug switch, followed by the normal
+	// call) handles the line twice
+	{
+		var calls []ssa.Instruction
+		for _, ci := range callsIn(d.Fn) {
+			if ci.Common().Value == ssa.Value(d.Phi) {
+				calls = append(calls, ci)
+			}
+		}
+		isSel := func(in ssa.Instruction) bool {
+			for _, s := range calls {
+				if s == in {
+					return true
+				}
+			}
+			return false
+		}
+		var twice ssa.Instruction
+		for _, s := range calls {
+			if inLoop(s) {
+				twice = s
+			}
+			if again := searchAvoiding(d.Fn, s, isSel, nil); again != nil {
+				twice = again
+			}
+		}
+		construct := "the dispatcher " + d.Fn.Name() + " calls the selected entry function at most once"
+		if twice == nil {
+			c.OK("line-dispatched-once", construct, p.InstrPos(d.CallSite), fmt.Sprintf("%d call site(s), none repeated on a path", len(calls)))
+		} else {
+			c.Bad("line-dispatched-once", construct, p.InstrPos(twice), "the selected entry function can be called a second time for the same line (e.g. once inside a debug-level branch and again after it): the event is written twice, its counter moves twice and an accepted login is forwarded twice")
+		}
+	}
 	target := d.Fn
 	for level := 0; level < 4 && target != nil; level++ {
 		callers := map[*ssa.Function][]ssa.Instruction{}
